@@ -341,7 +341,8 @@ public:
     if (ncA != nrB) throw DimensionException("MatrixTools::mult(). nrows B != ncols A.", nrB, ncA);
     if (ncA != D.size()) throw DimensionException("MatrixTools::mult(). Vector size is not equal to matrix size.", D.size(), ncA);
     O.resize(nrA, ncB);
-    Scalar ab, iaib, iab, aib;
+    iO.resize(nrA, ncB);
+    Scalar ab, aib;
 
     for (size_t i = 0; i < nrA; i++)
     {
